@@ -131,7 +131,6 @@ type c40obs struct {
 	maxPenSeen  uint32
 	endSig      string
 	endWhat     string
-	capped      int
 }
 
 // tick runs at every scheduling step: it discovers the LBClient's per-client wrappers and appends every change of
@@ -601,9 +600,9 @@ func TestVerif_C40(t *testing.T) {
 	scns := []*c40scn{
 		{name: "2c/overlap-1s-calls", bound: B, tf: true, maxPen: 2, nClients: 2, base: []int{0, 0}, hold: []time.Duration{sec, sec},
 			callers: [][]c40op{{do}, {dt}, {dd, do}}},
-		{name: "2c/c0-fails/penalty-routes-away", bound: b, tf: true, maxPen: 2, nClients: 2, base: []int{0, 0}, plan: [][]bool{T, F},
+		{name: "2c/c0-fails/penalty-routes-away", bound: B, tf: true, maxPen: 2, nClients: 2, base: []int{0, 0}, plan: [][]bool{T, F},
 			callers: [][]c40op{{do, do}, {dt}, {after(3*sec, dd)}}},
-		{name: "2c/c0-fails/cap-reached", bound: b, tf: true, maxPen: 2, nClients: 2, base: []int{0, 10}, plan: [][]bool{T, F},
+		{name: "2c/c0-fails/cap-reached", bound: B, tf: true, maxPen: 2, nClients: 2, base: []int{0, 10}, plan: [][]bool{T, F},
 			callers: [][]c40op{{do, do}, {dt}, {dd}}},
 		{name: "2c/both-fail/max3", bound: b, tf: true, maxPen: 3, nClients: 2, base: []int{0, 0}, plan: [][]bool{T, {true, false}},
 			callers: [][]c40op{{do, do}, {dt, dt}, {dd}}},
@@ -623,9 +622,9 @@ func TestVerif_C40(t *testing.T) {
 			callers: [][]c40op{{do}, {dt}, {after(sec, dd)}}, member: []c40mem{{kind: "remove", ids: []int{0, 1, 2}}}},
 		{name: "2c/warm/add-then-remove-c0", bound: B, tf: false, maxPen: 2, nClients: 2, base: []int{0, 0, 0}, hold: []time.Duration{sec, 0, 0}, warm: true,
 			callers: [][]c40op{{do}, {dt}, {after(sec, dd)}}, member: []c40mem{{kind: "add", ids: []int{2}}, {kind: "remove", ids: []int{0}}}},
-		{name: "2c/cold/add-races-with-first-call", bound: b, tf: false, maxPen: 2, nClients: 2, base: []int{1, 1, 0},
+		{name: "2c/cold/add-races-with-first-call", bound: B, tf: false, maxPen: 2, nClients: 2, base: []int{1, 1, 0},
 			callers: [][]c40op{{do}, {dt}, {dd}}, member: []c40mem{{kind: "add", ids: []int{2}}}},
-		{name: "2c/warm/remove-all-then-add-then-calls", bound: b, tf: true, maxPen: 2, nClients: 2, base: []int{0, 0, 0}, plan: [][]bool{F, F, T}, warm: true,
+		{name: "2c/warm/remove-all-then-add-then-calls", bound: B, tf: true, maxPen: 2, nClients: 2, base: []int{0, 0, 0}, plan: [][]bool{F, F, T}, warm: true,
 			callers: [][]c40op{{do}, {after(sec, dt)}, {after(2*sec, dd)}}, member: []c40mem{{kind: "remove", ids: []int{0, 1}}, {pause: 2 * sec, kind: "add", ids: []int{2}}}},
 	}
 	// full-scale witness: the real bound 300, sequentially: 310 failing calls 1 ms apart on the same client
@@ -637,7 +636,7 @@ func TestVerif_C40(t *testing.T) {
 		hold: []time.Duration{time.Millisecond, 0}, plan: [][]bool{T, F}, callers: [][]c40op{w}})
 	if r.Thorough() {
 		scns = append(scns,
-			&c40scn{name: "3c/c0-c1-fail/longer", bound: 2, tf: true, maxPen: 2, nClients: 3, base: []int{0, 0, 1}, plan: [][]bool{T, {true, false, true}, F},
+			&c40scn{name: "3c/c0-c1-fail/longer/no-timer-first", bound: 2, tf: false, maxPen: 2, nClients: 3, base: []int{0, 0, 1}, plan: [][]bool{T, {true, false, true}, F},
 				callers: [][]c40op{{do, do, do}, {dt, after(3*sec, dt)}, {dd, dd}}},
 			&c40scn{name: "3c/warm/add-remove-mix", bound: 2, tf: true, maxPen: 2, nClients: 2, base: []int{0, 0, 0}, hold: []time.Duration{sec, 0, 0}, plan: [][]bool{F, T, F}, warm: true,
 				callers: [][]c40op{{do, do}, {dt, dt}, {after(sec, dd)}}, member: []c40mem{{kind: "add", ids: []int{2}}, {kind: "remove", ids: []int{1}}, {pause: sec, kind: "remove", ids: []int{0, 2}}}})
